@@ -137,7 +137,7 @@ Section ClSim.
 
   (* everything the competition's decisions depend on, and every field both runs write identically *)
   Definition dcore (g : @knn W) :=
-    (k_label g, k_adj g, k_radius g, k_nplat g, k_dens g, k_cost g, k_pred g, k_root g, k_gdens g, k_nclusters g).
+    (k_label g, k_adj g, k_radius g, k_nplat g, k_dens g, k_cost g, k_pred g, k_root g, k_gdens g).
 
   (* the label array the flavour writes (predicted_label / cluster_label) and the one it never touches *)
   Definition wl (sup : bool) (g : @knn W) : list nat := if sup then k_plabel g else k_clabel g.
@@ -160,7 +160,7 @@ Section ClSim.
   Proof.
     intros [Hc Hul Hlen Ho1 Ho2 Hlab] Hp.
     destruct g1 as [la aa ra na da ca pa oa PL1 CL1 O1 ga ta], g2 as [lb ab rb nb db cb pb ob PL2 CL2 O2 gb tb].
-    unfold dcore in Hc. knn_cbn_in Hc. injection Hc as <- <- <- <- <- <- <- <- <- <-.
+    unfold dcore in Hc. knn_cbn_in Hc. injection Hc as <- <- <- <- <- <- <- <- <-.
     knn_cbn_in Ho1. knn_cbn_in Ho2. knn_cbn_in Hlab.
     unfold cl_relax. knn_cbn.
     destruct (is_blackk h q).
@@ -203,7 +203,7 @@ Section ClSim.
       2:{ cbn [fst snd]. split; [reflexivity|]. now exists rem. }
       destruct H as [Hc Hul Hlen Ho1 Ho2 Hlab].
       destruct g1 as [la aa ra na da ca pa oa PL1 CL1 O1 ga ta], g2 as [lb ab rb nb db cb pb ob PL2 CL2 O2 gb tb].
-      unfold dcore in Hc. knn_cbn_in Hc. injection Hc as <- <- <- <- <- <- <- <- <- <-.
+      unfold dcore in Hc. knn_cbn_in Hc. injection Hc as <- <- <- <- <- <- <- <- <-.
       knn_cbn_in Ho1. knn_cbn_in Ho2. knn_cbn_in Hlab. knn_cbn.
       set (isr := match nth p pa None with None => true | Some _ => false end).
       set (h2 := if isr then set_cost h1 p (nth p da zero) else h1).
@@ -212,7 +212,7 @@ Section ClSim.
                         (if negb sup && isr then upd CL1 p lc else CL1) (O1 ++ [p]) ga ta).
       set (g2' := mkKnn la aa ra na da (upd ca p (hcostk top h2 p)) pa oa
                         (if sup && isr then upd PL2 p (nth p la 0) else PL2)
-                        (if negb sup && isr then upd CL2 p lc else CL2) (O2 ++ [p]) ga ta).
+                        (if negb sup && isr then upd CL2 p lc else CL2) (O2 ++ [p]) ga tb).
       assert (Hnb' : nbrs g1' p = nbrs g2' p) by (apply Hnb; reflexivity).
       assert (C : csim sup o1 o2 (rem ++ [p]) g1' g2').
       { assert (Hnr : isr = false -> nth p pa None <> None).
@@ -240,7 +240,7 @@ Section ClSim.
   (* ---------------- seeding ---------------- *)
 
   Definition score (g : @knn W) :=
-    (k_label g, k_adj g, k_radius g, k_nplat g, k_dens g, k_cost g, k_gdens g, k_nclusters g).
+    (k_label g, k_adj g, k_radius g, k_nplat g, k_dens g, k_cost g, k_gdens g).
   Definition slabs (g : @knn W) := (k_plabel g, k_clabel g, k_order g).
 
   Definition seed_rel (n a : nat) (g1 g2 : @knn W) : Prop :=
@@ -258,7 +258,7 @@ Section ClSim.
   Proof.
     intros (Hs & L1 & L2 & L3 & L4 & Hp & Hr) Ha.
     destruct g1 as [la aa ra na da ca pa oa PL1 CL1 O1 ga ta], g2 as [lb ab rb nb db cb pb ob PL2 CL2 O2 gb tb].
-    unfold score in Hs. knn_cbn_in Hs. injection Hs as <- <- <- <- <- <- <- <-.
+    unfold score in Hs. knn_cbn_in Hs. injection Hs as <- <- <- <- <- <- <-.
     knn_cbn_in L1. knn_cbn_in L2. knn_cbn_in L3. knn_cbn_in L4. knn_cbn_in Hp. knn_cbn_in Hr.
     unfold cl_seed. knn_cbn. cbn [fst snd]. split; [reflexivity|]. split; [|split; reflexivity].
     unfold seed_rel, score. knn_cbn. rewrite !upd_length.
@@ -316,7 +316,7 @@ Section ClSim.
                g2 as [la2 aa2 ra2 na2 da2 ca2 pa2 oa2 PL2' CL2' O2' ga2 ta2].
       unfold score in Hs'. unfold slabs in S1, S2. knn_cbn_in Hs'. knn_cbn_in S1. knn_cbn_in S2.
       knn_cbn_in Epred. knn_cbn_in Eroot. knn_cbn_in Hp. knn_cbn_in M1.
-      injection Hs' as <- <- <- <- <- <- <- <-. injection S1 as -> -> ->. injection S2 as -> -> ->.
+      injection Hs' as <- <- <- <- <- <- <-. injection S1 as -> -> ->. injection S2 as -> -> ->.
       subst pb ob. unfold wl, ul in *. knn_cbn_in Hul. knn_cbn_in Hlen.
       constructor; unfold dcore, wl, ul; knn_cbn; try assumption; try reflexivity; try (now rewrite app_nil_r).
       intros q [[]|Hq]. exfalso. apply Hq.
